@@ -159,6 +159,8 @@ type World struct {
 	seq   int
 	healSeq int
 	hostile  bool
+	burstNode uint64
+	burstLeft int
 	phaseEnd int
 	Trace []Action
 	Log   []string
